@@ -7,7 +7,9 @@ the errors they raise are compared with the model inside coqc.
 Search: the same runs are compared with functools.reduce / list slicing directly; map / mapreduce / currymap are also run on
 sequences of arbitrary values - classes of ==-equal elements of different types (0 / False / 0.0 / -0.0 / Decimal(0) ..), blocks that
 repeat exactly or up to ==, list and tuple inputs - with a mapper whose result depends on the exact type and repr of its argument;
-oracle: the built-in map; every distinct input element must reach the mapper and nothing else may."""
+oracle: the built-in map; every distinct input element must reach the mapper and nothing else may.  Maps over mapped sequences
+(inner and outer steps differing either way) followed by len / every index / slices / a third map; and mappers that carry the same
+__qualname__ in two different modules (plain functions and TaskGenerators) mapped over the same blocks in one store."""
 import functools
 import itertools
 
@@ -166,6 +168,113 @@ def run_typed(kind, exprs, ms, rs, as_tuple):
     return exp, obs, list(CALLS), keys, blocks
 
 
+def shift(x):
+    CALLS.append(('shift', x))
+    return x + 1000
+
+
+def triple(x):
+    CALLS.append(('triple', x))
+    return 3 * x
+
+
+MOD_SRC = """from jug import TaskGenerator
+CALLS = []
+TAG = %r
+
+
+def work(x):
+    CALLS.append(('work', x))
+    return (TAG, 'work', x)
+
+
+@TaskGenerator
+def twork(x):
+    CALLS.append(('twork', x))
+    return (TAG, 'twork', x)
+
+
+def pair(x, y):
+    CALLS.append(('pair', x, y))
+    return (TAG, 'pair', x, y)
+
+
+@TaskGenerator
+def tpair(x, y):
+    CALLS.append(('tpair', x, y))
+    return (TAG, 'tpair', x, y)
+
+
+def join(a, b):
+    return tuple(a) + tuple(b)
+
+
+def one(x):
+    CALLS.append(('one', x))
+    return ((TAG, 'one', x),)
+
+
+tone = TaskGenerator(one)
+tjoin = TaskGenerator(join)
+"""
+
+
+def twin_modules(d, names=('jv_twin_a', 'jv_twin_b')):
+    """two freshly written modules that define the SAME function names (equal __qualname__) - returns the imported modules"""
+    import importlib
+    import os
+    import sys
+    mods = []
+    for nm in names:
+        with open(os.path.join(d, nm + '.py'), 'w') as fh:
+            fh.write(MOD_SRC % nm)
+    sys.path.insert(0, d)
+    try:
+        importlib.invalidate_caches()
+        for nm in names:
+            sys.modules.pop(nm, None)
+            mods.append(importlib.import_module(nm))
+    finally:
+        sys.path.remove(d)
+    return mods
+
+
+def run_twins(mods, op, wrapped, xs, ms, rs, order):
+    """the same operation with the same-named mapper of each module, over the same input, in ONE store; returns per module
+    (expected, observed, calls, expected calls)"""
+    jugrun.fresh()
+    handles = []
+    for m in (mods if order == 0 else mods[::-1]):
+        del m.CALLS[:]
+        if op == 'map':
+            f = m.twork if wrapped else m.work
+            h = jug.mapreduce.map(f, list(xs), map_step=ms)
+            exp = [(m.TAG, f.f.__name__ if wrapped else f.__name__, x) for x in xs]
+            ecalls = [(('twork' if wrapped else 'work'), x) for x in xs]
+        elif op == 'currymap':
+            f = m.tpair if wrapped else m.pair
+            ps = [(x, x + 1) for x in xs]
+            h = jug.mapreduce.currymap(f, ps, map_step=ms)
+            exp = [(m.TAG, 'tpair' if wrapped else 'pair', a, b) for a, b in ps]
+            ecalls = [(('tpair' if wrapped else 'pair'), a, b) for a, b in ps]
+        else:
+            h = jug.mapreduce.mapreduce(m.tjoin if wrapped else m.join, m.tone if wrapped else m.one, list(xs), map_step=ms, reduce_step=rs)
+            exp = [(m.TAG, 'one', x) for x in xs]
+            ecalls = [('one', x) for x in xs]
+        handles.append((m, h, exp, ecalls))
+    jugrun.run_all_sequential()
+    out = []
+    for m, h, exp, ecalls in handles:
+        if op == 'mapreduce':
+            obs = list(value(h)) if xs else []
+        elif op == 'currymap' or isinstance(h, list):
+            obs = [value(e) for e in h]
+        else:
+            obs = [value(h[i]) for i in range(len(h))]
+        out.append((m.TAG, exp, obs, list(m.CALLS), ecalls))
+    return out
+
+
 tg_single = TaskGenerator(single)
 tg_concat = TaskGenerator(concat)
 
@@ -218,6 +327,14 @@ def obs_list(fn):
     try:
         return ('ok', list(fn()))
     except (IndexError, ValueError, TypeError) as e:
+        return ('err', type(e).__name__)
+
+
+def obs_any(fn):
+    """like obs_list, for runs that must not fail at all: any exception is an observation"""
+    try:
+        return ('ok', list(fn()))
+    except Exception as e:
         return ('err', type(e).__name__)
 
 
@@ -344,8 +461,91 @@ def run(ck):
         ck.violation({'kind': 'correspondence', 'what': 'map(): block structure differs from the model', 'case': cm_meta[i],
                       'coq_case': cm_cases[i]})
 
+    # ---- map over a mapped sequence (inner step a, outer step b, a <, =, > b), then len / every index / slices / a third map
+    mm_cases, mm_meta = [], []
+    for n in range(0, ck.n(11, 20)):
+        for a in (1, 2, 3, 4):
+            for b in (1, 2, 3, 4, 5, 8):
+                if not thorough and (n + a + b) % 2:
+                    continue
+                c = 1 + (n + a + b) % 4
+                # (map_step == 1 builds one Task per element by iterating its input, and a mapped sequence cannot be iterated:
+                #  jug raises NotImplementedError there - not an input of this property)
+                if a != 1 and b == 1:
+                    continue
+                if b != 1 and c == 1:
+                    c = 2
+                jugrun.fresh()
+                del CALLS[:]
+                xs = list(range(n))
+                m1 = jug.mapreduce.map(affine, xs, map_step=a)
+                m2 = jug.mapreduce.map(shift, m1, map_step=b)
+                m3 = jug.mapreduce.map(triple, m2, map_step=c)
+                ran = obs_any(lambda: (jugrun.run_all_sequential(), [])[1])
+                y2 = [7 * x + 3 + 1000 for x in xs]
+                y3 = [3 * y for y in y2]
+                obs = {'run': ran, 'len2': obs_any(lambda: [len(m2)]), 'all2': obs_any(lambda: [value(e) for e in m2] if isinstance(m2, list) else value(m2)),
+                       'all3': obs_any(lambda: [value(e) for e in m3] if isinstance(m3, list) else value(m3)),
+                       'len3': obs_any(lambda: [len(m3)])}
+                exp = {'run': ('ok', []), 'len2': ('ok', [n]), 'all2': ('ok', y2), 'all3': ('ok', y3), 'len3': ('ok', [n])}
+                for p in range(-n - 1, n + 1):
+                    obs['idx2:%d' % p] = obs_any(lambda: [value(m2[p])])
+                    exp['idx2:%d' % p] = obs_any(lambda: [y2[p]])
+                    obs['idx3:%d' % p] = obs_any(lambda: [value(m3[p])])
+                    exp['idx3:%d' % p] = obs_any(lambda: [y3[p]])
+                    if not isinstance(m2, list) and b != 1:
+                        o = obs['idx2:%d' % p]
+                        sl_extra = '(%s, %s, CIndex %s %s)' % (listlit([zlit(y) for y in y2]), natlit(b), zlit(p),
+                                                              optlit(zlit(o[1][0])) if o[0] == 'ok' else 'None')
+                        mm_cases.append(sl_extra)
+                        mm_meta.append({'map_over_map': [n, a, b], 'index': p, 'observed': repr(o)})
+                for _ in range(3):
+                    bd = [None] + list(range(-n - 1, n + 2))
+                    sl = slice(ck.rng.choice(bd), ck.rng.choice(bd), ck.rng.choice([None, 1, 2, -1, -2, 3]))
+                    key = 'slice2:%r' % ((sl.start, sl.stop, sl.step),)
+                    obs[key] = obs_any(lambda: [value(e) for e in m2[sl]] if isinstance(m2, list) else value(m2[sl]))
+                    exp[key] = obs_any(lambda: y2[sl])
+                bad = [k for k in exp if obs[k] != exp[k] and not (obs[k][0] == 'err' and exp[k][0] == 'err')]
+                calls_ok = sorted(c for c in CALLS if not isinstance(c, tuple)) == xs and \
+                    sorted(c[1] for c in CALLS if isinstance(c, tuple) and c[0] == 'shift') == sorted(7 * x + 3 for x in xs) and \
+                    sorted(c[1] for c in CALLS if isinstance(c, tuple) and c[0] == 'triple') == sorted(y2)
+                ck.distinct(('mapmap', n, a, b, c), n >= 2)
+                ck.count('map-over-map:' + ('outer>=inner' if b >= a else 'outer<inner'))
+                if bad or not calls_ok:
+                    ck.violation({'kind': 'impl-violation', 'what': 'map over a mapped sequence: len / index / slice / further map differ from the built-ins',
+                                  'map_over_map': {'n': n, 'inner_step': a, 'outer_step': b, 'third_step': c},
+                                  'differs_at': bad[:6], 'expected': repr([exp[k] for k in bad[:6]]), 'observed': repr([obs[k] for k in bad[:6]]),
+                                  'every_element_mapped_once': calls_ok})
+    ck.sample({'kind': 'map over map', **(mm_meta[len(mm_meta) // 2] if mm_meta else {})})
+
+    # ---- mappers with the same __qualname__ in two modules, plain and TaskGenerator-wrapped, over the same blocks in one store
+    with jugrun.scratch_dir('twins') as d:
+        mods = twin_modules(d)
+        try:
+            k = 0
+            for op in ('map', 'currymap', 'mapreduce'):
+                for wrapped in (False, True):
+                    for n in (0, 1, 3, 4, 7, 9) if not thorough else range(0, 13):
+                        for ms in (1, 2, 4):
+                            if wrapped and ms == 1:
+                                ms = 3      # (map_step == 1 hands the TaskGenerator itself to Task(): AttributeError on HEAD, not an input here)
+                            k += 1
+                            res = run_twins(mods, op, wrapped, list(range(n)), ms, 2 + k % 3, k % 2)
+                            ck.distinct(('twins', op, wrapped, n, ms), n >= 2)
+                            ck.count('twins:' + op + (':TaskGenerator' if wrapped else ':function'))
+                            for tag, exp, obs, calls, ecalls in res:
+                                if obs != exp or sorted(calls) != sorted(ecalls):
+                                    ck.violation({'kind': 'impl-violation',
+                                                  'what': '%s with same-named mappers from two modules: values differ from the built-in map or an element was not mapped exactly once per mapper' % op,
+                                                  'twins': {'op': op, 'taskgenerator': wrapped, 'n': n, 'map_step': ms, 'reduce_step': 2 + k % 3, 'order': k % 2},
+                                                  'module': tag, 'expected': repr(exp), 'observed': repr(obs), 'mapper_calls': repr(calls)})
+        finally:
+            import sys as _sys
+            for m in mods:
+                _sys.modules.pop(m.__name__, None)
+
     # ---------------------------------------------------------------- (b) indices, slices, slices of slices
-    sl_cases, sl_meta = [], []
+    sl_cases, sl_meta = list(mm_cases), list(mm_meta)
     NS = ck.n(9, 12)
     for n in range(0, NS + 1):
         for ms in ((2, 3, 5) if not thorough else (2, 3, 4, 5, 7)):
@@ -456,6 +656,34 @@ Definition run_case (c : list Z * nat * scase) : bool :=
 def replay(obj):
     """Re-execute a recorded C17 case against /repo."""
     jugrun.fresh()
+    if 'map_over_map' in obj and isinstance(obj['map_over_map'], dict):
+        q = obj['map_over_map']
+        xs = list(range(q['n']))
+        m1 = jug.mapreduce.map(affine, xs, map_step=q['inner_step'])
+        m2 = jug.mapreduce.map(shift, m1, map_step=q['outer_step'])
+        m3 = jug.mapreduce.map(triple, m2, map_step=q.get('third_step', 2))
+        ran = obs_any(lambda: (jugrun.run_all_sequential(), [])[1])
+        y2 = [7 * x + 3 + 1000 for x in xs]
+        o = [obs_any(lambda: [value(m2[p])]) for p in range(len(xs))] + [obs_any(lambda: [value(m3[p])]) for p in range(len(xs))]
+        e = [('ok', [y]) for y in y2] + [('ok', [3 * y]) for y in y2]
+        print('run', ran)
+        print('m2[p], m3[p] observed', o)
+        print('m2[p], m3[p] expected', e)
+        ol = obs_any(lambda: [len(m2), len(m3)])
+        print('len observed', ol, 'expected', [len(xs)] * 2)
+        return 0 if (ran[0] == 'ok' and o == e and ol == ('ok', [len(xs)] * 2)) else 1
+    if 'twins' in obj:
+        q = obj['twins']
+        with jugrun.scratch_dir('twins') as d:
+            mods = twin_modules(d)
+            res = run_twins(mods, q['op'], q['taskgenerator'], list(range(q['n'])), q['map_step'], q.get('reduce_step', 2), q.get('order', 0))
+        rc = 0
+        for tag, exp, obs, calls, ecalls in res:
+            print(tag, 'expected', exp)
+            print(tag, 'observed', obs, 'calls', calls)
+            if obs != exp or sorted(calls) != sorted(ecalls):
+                rc = 1
+        return rc
     if 'typed' in obj and 'elements' in obj:
         exp, obs, calls, keys, blocks = run_typed(obj['typed'], obj['elements'], obj['map_step'], obj.get('reduce_step', 2), obj.get('as_tuple', False))
         print('expected', exp)
